@@ -65,7 +65,7 @@ def check_padding(lengths, return_ctx, extra):
     seqs = [torch.arange(1, n + 1).float().unsqueeze(1).repeat(1, 2) for n in lengths]
     samples = []
     for i, s in enumerate(seqs):
-        item = (s, i) if extra else (s,)
+        item = (s, i, 0.1 * (i + 1), i % 2 == 0) if extra else (s,)
         samples.append((item, {"k": i}) if return_ctx else item)
     try:
         out = c(samples)
@@ -84,8 +84,36 @@ def check_padding(lengths, return_ctx, extra):
     for i, n in enumerate(lengths):
         if not torch.equal(x[i, :n], seqs[i]) or x[i, n:].abs().sum() != 0:
             return {"what": "content changed or padding not zero", "row": i, "lengths": lengths}
-    if extra and out[1].tolist() != list(range(len(lengths))):
-        return {"what": "other fields not collated like default_collate", "lengths": lengths}
+    if extra:
+        from torch.utils.data import default_collate
+        for col in (1, 2, 3):
+            ref = default_collate([it[col] for it in ([s_[0] for s_ in samples] if return_ctx else samples)])
+            if out[col].dtype != ref.dtype or not torch.equal(out[col], ref):
+                return {"what": "a non-sequence field is not collated like default_collate would", "field": col, "lengths": lengths,
+                        "observed": f"{out[col].dtype} {out[col].tolist()}", "expected": f"{ref.dtype} {ref.tolist()}"}
+    return None
+
+
+def check_wrapper_twice():
+    """the single-collator wrapper hands out a context of its own for every batch"""
+    from kappadata.collators.base.kd_single_collator_wrapper import KDSingleCollatorWrapper
+    from kappadata.collators.pad_sequences_collator import PadSequencesCollator
+
+    class Rec(PadSequencesCollator):
+        def collate(self, batch, _, ctx=None):
+            if ctx is not None and len(batch) > 2:
+                ctx["big"] = len(batch)
+            if ctx is not None:
+                ctx["n"] = len(batch)
+            return super().collate(batch, _, ctx)
+    w = KDSingleCollatorWrapper(Rec(), dataset_mode="x", return_ctx=True)
+    b1, c1 = w([torch.ones(2, 1), torch.ones(3, 1), torch.ones(1, 1)])
+    snap = dict(c1)
+    b2, c2 = w([torch.ones(2, 1), torch.ones(1, 1)])
+    if c1 != snap:
+        return {"what": "the context handed out for one batch is overwritten by the next batch", "first": str(snap), "now": str(c1)}
+    if c2 != {"n": 2}:
+        return {"what": "context of a batch carries keys of an earlier batch", "observed": str(c2)}
     return None
 
 
@@ -107,4 +135,9 @@ def search(limit, seed):
             if r is not None:
                 r["input"] = {"lengths": lengths, "return_ctx": rc, "extra_field": extra}
                 return r, n
+    n += 1
+    r = check_wrapper_twice()
+    if r is not None:
+        r["input"] = {"scenario": "same KDSingleCollatorWrapper collates two batches"}
+        return r, n
     return None, n
